@@ -204,10 +204,12 @@ def allUntil (limit : Nat) (t : Tree K V) : List (K × V) :=
 { return false }`, whatever `rhs` holds -/
 def equalOtherKind : Bool := false
 
-/-- `Equal(rhs)` for two trees of the same concrete type -/
-def equal (cmp : K → K → Int) (eqVal : V → V → Bool) (t t2 : Tree K V) : Bool :=
+/-- `t.Equal(rhs)` for two tables of the same concrete type: `cmp` is the receiver's `t.cmpKey`, `cmp2` is
+`t2.cmpKey` (`t2.Get` looks a key up with the comparator `t2` was constructed with, which need not be the
+receiver's), `eqVal` is the receiver's `t.eqVal` in both passes -/
+def equal (cmp cmp2 : K → K → Int) (eqVal : V → V → Bool) (t t2 : Tree K V) : Bool :=
   (traverse .ascending (fun k v (_ : Unit) =>
-      (match get cmp t2 k with
+      (match get cmp2 t2 k with
        | some val => eqVal v val
        | none => false, ())) t ()).1 &&
   (traverse .ascending (fun k v (_ : Unit) =>
@@ -732,55 +734,70 @@ def selectMatch (kind : Kind) (cmp : K → K → Int) (p : K → V → Bool) (t 
     Outcome (Tree K V) :=
   (traverse .vlr (selectVisit kind cmp p) t (.ok nil)).2
 
-abbrev State (K V : Type) := Tree K V × Tree K V × Tree K V
+/-- a table object (`bst` / `avl` / `redBlack`): `cmpKey`, `eqVal` and `root` -/
+structure Table (K V : Type) where
+  cmp : K → K → Int
+  eqVal : V → V → Bool
+  root : Tree K V
 
-/-- one call on the Model -/
-def step (kind : Kind) (cmp : K → K → Int) (eqVal : V → V → Bool) (s : State K V) :
-    Op K V → Outcome (State K V × Out K V)
-  | .put k v => do let a ← put kind cmp s.1 k v; pure ((a, s.2), .unit)
-  | .delete k => do let (a, r) ← delete kind cmp s.1 k; pure ((a, s.2), .optV r)
-  | .deleteMin => do let (a, r) ← deleteMin kind s.1; pure ((a, s.2), .optKV r)
-  | .deleteMax => do let (a, r) ← deleteMax kind s.1; pure ((a, s.2), .optKV r)
-  | .deleteAll => pure ((nil, s.2), .unit)
+/-- the same object with a new root (a mutator ran) -/
+def Table.set (t : Table K V) (r : Tree K V) : Table K V := { t with root := r }
+
+/-- `NewBST(cmp, eqVal)` / `NewAVL(cmp, eqVal)` / `NewRedBlack(cmp, eqVal)` -/
+def Table.new (cmp : K → K → Int) (eqVal : V → V → Bool) : Table K V := ⟨cmp, eqVal, nil⟩
+
+/-- three table objects `(a, b, c)`; every one carries the comparator and the value equality it was
+constructed with -/
+abbrev State (K V : Type) := Table K V × Table K V × Table K V
+
+/-- one call on the Model.  The receiver is `s.1`; `SelectMatch`/`PartitionMatch` construct their results
+with the receiver's `cmpKey` and `eqVal`; `Equal` looks keys of the receiver up in the argument with the
+argument's comparator and vice versa. -/
+def step (kind : Kind) (s : State K V) : Op K V → Outcome (State K V × Out K V)
+  | .put k v => do let a ← put kind s.1.cmp s.1.root k v; pure ((s.1.set a, s.2), .unit)
+  | .delete k => do let (a, r) ← delete kind s.1.cmp s.1.root k; pure ((s.1.set a, s.2), .optV r)
+  | .deleteMin => do let (a, r) ← deleteMin kind s.1.root; pure ((s.1.set a, s.2), .optKV r)
+  | .deleteMax => do let (a, r) ← deleteMax kind s.1.root; pure ((s.1.set a, s.2), .optKV r)
+  | .deleteAll => pure ((s.1.set nil, s.2), .unit)
   | .swap => pure ((s.2.1, s.1, s.2.2), .unit)
   | .swapC => pure ((s.2.2, s.2.1, s.1), .unit)
-  | .size => pure (s, .nat s.1.sz)
-  | .isEmpty => pure (s, .bool s.1.isNil)
-  | .height => pure (s, .nat (height kind s.1))
-  | .get k => pure (s, .optV (get cmp s.1 k))
-  | .min => pure (s, .optKV (minKV s.1))
-  | .max => pure (s, .optKV (maxKV s.1))
-  | .floor k => pure (s, .optKV (floor cmp s.1 k))
-  | .ceiling k => pure (s, .optKV (ceiling cmp s.1 k))
-  | .select i => do let r ← select s.1 i; pure (s, .optKV r)
-  | .rank k => pure (s, .nat (rank cmp s.1 k))
-  | .range lo hi => pure (s, .list (range cmp s.1 lo hi))
-  | .rangeSize lo hi => pure (s, .int (rangeSize cmp s.1 lo hi))
-  | .all => pure (s, .list (all s.1))
-  | .allUntil limit => pure (s, .list (allUntil limit s.1))
-  | .traverse o limit => pure (s, .list (traverseCollect o limit s.1))
-  | .equal => pure (s, .bool (equal cmp eqVal s.1 s.2.1))
+  | .size => pure (s, .nat s.1.root.sz)
+  | .isEmpty => pure (s, .bool s.1.root.isNil)
+  | .height => pure (s, .nat (height kind s.1.root))
+  | .get k => pure (s, .optV (get s.1.cmp s.1.root k))
+  | .min => pure (s, .optKV (minKV s.1.root))
+  | .max => pure (s, .optKV (maxKV s.1.root))
+  | .floor k => pure (s, .optKV (floor s.1.cmp s.1.root k))
+  | .ceiling k => pure (s, .optKV (ceiling s.1.cmp s.1.root k))
+  | .select i => do let r ← select s.1.root i; pure (s, .optKV r)
+  | .rank k => pure (s, .nat (rank s.1.cmp s.1.root k))
+  | .range lo hi => pure (s, .list (range s.1.cmp s.1.root lo hi))
+  | .rangeSize lo hi => pure (s, .int (rangeSize s.1.cmp s.1.root lo hi))
+  | .all => pure (s, .list (all s.1.root))
+  | .allUntil limit => pure (s, .list (allUntil limit s.1.root))
+  | .traverse o limit => pure (s, .list (traverseCollect o limit s.1.root))
+  | .equal => pure (s, .bool (equal s.1.cmp s.2.1.cmp s.1.eqVal s.1.root s.2.1.root))
+  | .equalSelf => pure (s, .bool (equal s.1.cmp s.1.cmp s.1.eqVal s.1.root s.1.root))
   | .equalOther => pure (s, .bool equalOtherKind)
-  | .anyMatch p => pure (s, .bool (anyMatch p s.1))
-  | .allMatch p => pure (s, .bool (allMatch p s.1))
-  | .firstMatch p => pure (s, .optKV (firstMatch p s.1))
+  | .anyMatch p => pure (s, .bool (anyMatch p s.1.root))
+  | .allMatch p => pure (s, .bool (allMatch p s.1.root))
+  | .firstMatch p => pure (s, .optKV (firstMatch p s.1.root))
   | .selectMatch p => do
-    let m ← selectMatch kind cmp p s.1
-    pure ((s.1, m, s.2.2), .list (all m))
+    let m ← selectMatch kind s.1.cmp p s.1.root
+    pure ((s.1, s.1.set m, s.2.2), .list (all m))
   | .partitionMatch p => do
-    let (m, u) ← partitionMatch kind cmp p s.1
-    pure ((s.1, m, u), .list2 (all m) (all u))
+    let (m, u) ← partitionMatch kind s.1.cmp p s.1.root
+    pure ((s.1, s.1.set m, s.1.set u), .list2 (all m) (all u))
 
 /-- run a history from a given state, collecting the outputs -/
-def runFrom (kind : Kind) (cmp : K → K → Int) (eqVal : V → V → Bool) :
-    State K V → List (Op K V) → Outcome (State K V × List (Out K V))
+def runFrom (kind : Kind) : State K V → List (Op K V) → Outcome (State K V × List (Out K V))
   | s, [] => .ok (s, [])
   | s, op :: ops => do
-    let (s', o) ← step kind cmp eqVal s op
-    let (s'', os) ← runFrom kind cmp eqVal s' ops
+    let (s', o) ← step kind s op
+    let (s'', os) ← runFrom kind s' ops
     pure (s'', o :: os)
 
-/-- the two comparators the harness instantiates `cmpKey` with (`generic.NewCompareFunc[int]()` and its
+/-- the comparators the harness instantiates `cmpKey` with (`generic.NewCompareFunc[int]()` and its
 reverse), and its `eqVal` -/
 def cmpAsc (a b : Int) : Int := if a < b then -1 else if a > b then 1 else 0
 def cmpDesc (a b : Int) : Int := if a > b then -1 else if a < b then 1 else 0
@@ -788,11 +805,32 @@ def cmpDesc (a b : Int) : Int := if a > b then -1 else if a < b then 1 else 0
 def cmpDiff (a b : Int) : Int := a - b
 def cmpDiff7 (a b : Int) : Int := 7 * (a - b)
 def cmpRDiff (a b : Int) : Int := b - a
+def cmpRDiff3 (a b : Int) : Int := 3 * (b - a)
+/-- by a key first, then ascending: `sort.Slice` style lexicographic comparator -/
+def cmpLex (f : Int → Int) (a b : Int) : Int :=
+  if f a < f b then -1 else if f a > f b then 1 else cmpAsc a b
+/-- `|a|` -/
+def absI (a : Int) : Int := if a < 0 then -a else a
+/-- by absolute value, then negative before positive: `0, -1, 1, -2, 2, …` -/
+def cmpAbsSign : Int → Int → Int := cmpLex absI
+/-- `0` for even, `1` for odd keys (`%` as in Go: truncated) -/
+def parityI (a : Int) : Int := if Int.tmod a 2 = 0 then 0 else 1
+/-- even keys before odd keys, each group ascending -/
+def cmpEvenOdd : Int → Int → Int := cmpLex parityI
 def eqInt (a b : Int) : Bool := a == b
+/-- value equalities other than `==`: same parity; anything goes -/
+def eqParity (a b : Int) : Bool := Int.tmod (a - b) 2 == 0
+def eqAny (_ _ : Int) : Bool := true
 
-/-- run a history on three fresh tables (`NewBST/NewAVL/NewRedBlack(cmp, eqVal)` three times) -/
-def run (kind : Kind) (cmp : K → K → Int) (eqVal : V → V → Bool) (ops : List (Op K V)) :
+/-- run a history on three tables; the theorems instantiate them with fresh ones,
+`Table.new cmpA eqA`, `Table.new cmpB eqB`, `Table.new cmpC eqC` (`New…(cmp, eqVal)` three times, each
+with its own arguments) -/
+def run (kind : Kind) (a b c : Table K V) (ops : List (Op K V)) : Outcome (State K V × List (Out K V)) :=
+  runFrom kind (a, b, c) ops
+
+/-- the usual set-up: the three tables constructed with the same comparator and value equality -/
+def run1 (kind : Kind) (cmp : K → K → Int) (eqVal : V → V → Bool) (ops : List (Op K V)) :
     Outcome (State K V × List (Out K V)) :=
-  runFrom kind cmp eqVal (nil, nil, nil) ops
+  run kind (.new cmp eqVal) (.new cmp eqVal) (.new cmp eqVal) ops
 
 end AlgoVerif.C01
